@@ -136,6 +136,15 @@ CHECKS["C08"] = dict(
     note="Trusted: host rustc as wasm32 layout engine for these definitions (all scalars have identical size/align), the reference flattening written from docs/wasm_abi_quirks.md "
          "(legacy) and the wasm BasicCABI (spec, cross-checked once with clang --target=wasm32); Node's typed arrays.")
 
+CHECKS["C09"] = dict(
+    category="exploration", design="§2 C09",
+    technique="bounded-exhaustive enumeration of accepted modules (shared generated crate, cyclic/namespaced/renamed shapes, every C/C++/JS reserved word in every identifier role, callback shapes, the repository's own bridges); real rustc/gcc/g++/node as oracles on every generated file alone and in permuted include orders",
+    text="The macro expansion of every module is type-checked by cargo build; every generated .h/.d.h compiles alone as C11, every .hpp/.d.hpp alone as C++17 and C++20, every .mjs "
+         "passes node --check; all-headers translation units in sorted, reversed, rotated and pairwise orders compile; every #include / import names a generated file that defines the "
+         "imported name. Reserved words of the three languages are used as parameter, method, field, variant and type names, one name per header when a pack fails.",
+    note="Trusted: gcc/g++/node/rustc exit status. Names that are not reserved words but predeclared by system headers or the JS global object (NULL, EOF, size_t, constructor, ...) are "
+         "recorded, not judged. Quick compiles a stated subset of the layout-struct headers under C++; thorough compiles all.")
+
 CHECKS["C10"] = dict(
     category="exploration", design="§2 C10",
     technique="same enumeration as C01 restricted to Option/Result shapes, plus sizeof-vs-size_of comparison for every result record and declaration comparison of std/DiplomatOption spelling pairs",
